@@ -1422,6 +1422,29 @@ def rule_coloring(w):
                 want = "%s[graph._image_idx[$%d]]" % (C, lp.depth)
                 if m.idx_canon != want:
                     problems.append("marked entry is %s[%s], not the colour of the neighbour %s" % (M, m.idx_canon, want))
+        # the scan of the node's adjacency list is complete: no way out of the segment loop that depends on the ORDER of the list
+        if len(marks) == 1:
+            m0 = marks[0]
+            sfr = [f for f in m0.frames if f.kind == "loop" and f.loop is not None and f.loop.kind == "seg"]
+            if len(sfr) == 1:
+                for x in fk.events:
+                    if x.kind in ("break", "return") and any(f.node is sfr[0].node for f in x.frames) and \
+                            not [f for f in x.frames[[id(g.node) for g in x.frames].index(id(sfr[0].node)) + 1:] if f.kind in ("loop", "case")]:
+                        ifs = [f for f in x.frames if f.kind == "if"]
+                        c0 = strip(ifs[-1].node.get("c")) if ifs else None
+                        order_dep = False
+                        if c0 is not None and c0.get("k") == "Bin" and c0.get("op") in ("<", "<=", ">", ">="):
+                            for side in (c0["lhs"], c0["rhs"]):
+                                a0 = fk.sub_arr(side) if _subscript(side) is not None else None
+                                if a0 is not None and a0.key.endswith("._image_idx"):
+                                    order_dep = True
+                        if order_dep:
+                            problems.append("the scan of the adjacency list is left by `%s` under %s (line %s): this assumes ascending adjacency lists, but graphs are not sorted in "
+                                            "general (as_is / injectify renders, array constructors); neighbours behind the first larger index are never marked" % (
+                                                x.kind, render(c0), x.node.get("l")))
+                        else:
+                            ck.incomplete("E7.greedy-colour", "%s/mask-from-node: `%s` out of the neighbour loop under %s: which neighbours are skipped is not evaluable" % (
+                                name, x.kind, render(c0) if c0 is not None else "no condition"))
         vob(ck, fk, (M, C) if M else (C,), NAMES, "E7.greedy-colour", name + "/mask-from-node", not problems, "; ".join(problems) if problems else
               "mask %s[colour of neighbour] = 1 for the neighbours in the adjacency list of the node that receives the colour (%s)" % (M, ", ".join(nodes)), fn.file, marks[0].node.get("l") if marks else fn.line)
         if M is None:
@@ -2288,6 +2311,83 @@ def _length_requirement(fk, cond):
 
 
 # -------------------------------------------------------------------------------------------------
+# permuted copy of a graph: the fill cursor follows the offsets the first pass defined
+# -------------------------------------------------------------------------------------------------
+
+def rule_perm_fill(w):
+    ck = w.ck
+    fns = one(w, r"Graph::Graph$", None, ["other", "domain_perm", "image_perm"])
+    if not fns:
+        ck.incomplete("E3.perm-fill", "Graph(other, domain_perm, image_perm) not found")
+        return
+    fn = fns[0]
+    fk = w.fk(fn)
+    key = "Graph::Graph(other,domain_perm,image_perm)/fill-cursor"
+    P, I = "this._domain_ptr", "this._image_idx"
+    if fk.unknown:
+        ck.incomplete("E3.perm-fill", "%s: %s" % (key, "; ".join(x[0] for x in fk.unknown)))
+        return
+    stores = [e for e in fk.events if e.kind == "sub" and e.mode == "write" and e.arr.key == I]
+    offs = [e for e in fk.events if e.kind == "sub" and e.mode == "write" and e.arr.key == P and e.frames]
+    if len(stores) != 1 or len(offs) != 1:
+        ck.incomplete("E3.perm-fill", "%s: %d stores into _image_idx, %d offset definitions in loops" % (key, len(stores), len(offs)))
+        return
+    st, of = stores[0], offs[0]
+    segs = [f for f in st.frames if f.kind == "loop" and f.loop is not None and f.loop.kind == "seg"]
+    rows = [f for f in st.frames if f.kind == "loop" and f.loop is not None and f.loop.kind == "range"]
+    ix = strip(st.idx)
+    if len(segs) != 1 or len(rows) != 1 or st.frames[0] is not rows[0] or ix.get("k") != "Ref" or ix.get("dk") != "local" or not segs[0].loop.pair_ok:
+        ck.incomplete("E3.perm-fill", "%s: store is not `_image_idx[cursor]` inside (row loop > segment of the source row)" % key)
+        return
+    seg = segs[0].loop
+    X = seg.canon[len("seg(%s," % seg.arr.key):-1]
+    S = seg.arr.key
+    # pass 1: new offsets = running sum of the lengths of exactly these segments, rows in the same order
+    want = sorted([(1, "%s[(%s + 1)]" % (S, X)), (-1, "%s[%s]" % (S, X)), (1, "%s[$0]" % P)])
+    of_rows = [f for f in of.frames if f.kind == "loop"]
+    problems = []
+    if of.idx_canon != "($0 + 1)" or of.val_terms != want or len(of_rows) != 1 or of_rows[0].loop is None or of_rows[0].loop.canon != rows[0].loop.canon:
+        ck.incomplete("E3.perm-fill", "%s: the first pass is not `_domain_ptr[i+1] = (length of source row %s) + _domain_ptr[i]` over the same rows (%s[%s] = %s over %s)" % (
+            key, X, P, of.idx_canon, of.val_canon, of_rows[0].canon if of_rows else "?"))
+        return
+    c = ix["d"]
+    cname = ix["n"]
+    vdecl = fk.locals.get(c)
+    assigns = [e for e in fk.events if e.kind == "scalar" and e.var == c and e.op == "="]
+    incs = [e for e in fk.events if (e.kind == "scalar" and e.var == c and e.op == "++") or (e.kind == "cursor-adv" and e.var == c and e.op == "++")]
+    other_mut = [e for e in fk.events if (e.kind == "scalar" and e.var == c and e.op not in ("=", "++")) or (e.kind == "cursor-adv" and e.var == c and e.op != "++")]
+    if other_mut or len(incs) != 1 or frames_key(incs[0].frames) != frames_key(st.frames) or vdecl is None or vdecl.get("init") is None:
+        ck.incomplete("E3.perm-fill", "%s: cursor %s is not advanced by exactly one increment per stored index" % (key, cname))
+        return
+    depth = fk.decl_depth.get(c, 0)
+    init = strip(vdecl["init"])
+    if depth == 0 and not assigns:
+        z = fk.size(init)
+        ok = z == Lin.const(0)
+        d = ("running cursor %s starts at 0 before the row loop and advances once per stored index; the rows and their lengths are those summed into _domain_ptr, "
+             "so row i starts at the new _domain_ptr[i]" % cname) if ok else "running cursor %s starts at %s instead of 0" % (cname, render(init))
+        ck.ob("E3.perm-fill", key, ok, d, fn.file, st.node.get("l"))
+        return
+    if depth == 1 and not assigns:
+        sub = _subscript(init)
+        arr = fk.sub_arr(init) if sub is not None else None
+        if arr is None:
+            ck.incomplete("E3.perm-fill", "%s: per-row cursor start %s is not an offset array element" % (key, render(init)))
+            return
+        ixs = strip(sub[1])
+        row_var = rows[0].loop.var
+        if arr.key == P and ixs.get("k") == "Ref" and ixs.get("d") == row_var:
+            ck.ob("E3.perm-fill", key, True, "cursor of destination row i starts at the new offset _domain_ptr[i] defined by the first pass", fn.file, st.node.get("l"))
+        elif arr.key.endswith("._domain_ptr") or arr.key == P:
+            ck.ob("E3.perm-fill", key, False, "the fill cursor of destination row %s starts at %s[%s]; the first pass laid the rows out at %s[%s] (running sum of the permuted row "
+                  "lengths), so rows of different length overwrite each other / leave gaps" % (rows[0].loop.varname, arr.key, render(ixs), P, rows[0].loop.varname), fn.file, vdecl.get("l"))
+        else:
+            ck.incomplete("E3.perm-fill", "%s: per-row cursor start %s[%s] not understood" % (key, arr.key, render(ixs)))
+        return
+    ck.incomplete("E3.perm-fill", "%s: cursor %s is re-assigned in a way that is not modelled" % (key, cname))
+
+
+# -------------------------------------------------------------------------------------------------
 
 def run(tier):
     ck = Check("C19", tier)
@@ -2336,6 +2436,9 @@ def run(tier):
             "or re-positions it - 'dereferenceable or at end' (breaks for empty inner adjacency lists)", 3)
     ck.rule("E7.callee-precond", "length assertions at the entry of a member function called by a render constructor (sort_indices) are implied by what the render function "
             "just built; a length that is the number of counted adjacencies has no lower bound (relation without adjacencies)", 1)
+    ck.rule("E3.perm-fill", "Graph(other, domain_perm, image_perm): pass 1 defines _domain_ptr as the running sum of the permuted row lengths; the fill pass visits the same "
+            "rows/segments and its cursor is either a running counter from 0 advanced once per stored index or starts per row at the NEW _domain_ptr[row] "
+            "(a cursor taken from the source layout misplaces rows of different length)", 1)
     ck.rule("E12.serial-layout", "Graph(buffer) reads what Graph::serialize wrote: header slots and payload sections agree symbolically (sizes, order, advance)", 7)
     ck.rule("E2.sort-segment", "sort_indices sorts exactly the adjacency list [P[i],P[i+1]) of every domain node: the sort is reached in every iteration of the loop over [0,Dom) "
             "(only nodes without adjacencies may be skipped; a `break` at an empty list leaves all later lists unsorted)", 1)
@@ -2353,6 +2456,7 @@ def run(tier):
     rule_iter_invariant(w)
     rule_callee_precond(w)
     rule_dyn_compose(w)
+    rule_perm_fill(w)
     ck.assume("adjactor interface contract (adjactor.hpp): image_begin/image_end(n) take n < get_num_nodes_domain(), iteration yields indices < get_num_nodes_image(); "
               "Graph: |_domain_ptr| = num_nodes_domain+1 (when not empty), offsets monotone with _domain_ptr[num_nodes_domain] = |_image_idx|, image indices < num_nodes_image")
     ck.assume("Permutation arrays hold values < size(); the input array v of Permutation(num_entries, type, v) and the `order` array of Coloring(graph, order) have one entry per "
